@@ -4,13 +4,13 @@
    and the non-vacuity Examples are in srv/SrvC08.v (effects of critical sections, invariant bundle, no crash),
    srv/SrvC08b.v (stop once, status, WaitStatus after the handlers), srv/SrvC08c.v (cancellation, retained
    notifications, restart), srv/SrvC08q.v (quiescence, termination), srv/SrvC08u.v (unblocking channels), srv/SrvC08r.v (drained notifications),
-   srv/SrvC08x.v (scenarios) and srv/SrvC08y.v (the flags of ServerStatus).
+   srv/SrvC08x.v (scenarios), srv/SrvC08y.v (the flags of ServerStatus) and srv/SrvC08n.v (notifications handled).
    All statements quantify over ALL configurations, ALL reachable states (reach = window boundaries, reachf =
    every intermediate state too) and ALL traces; there are no bounds.
    OWaitRet carries an [option stopcause]: "at most one flag" holds by type. *)
 From Coq Require Import List NArith ZArith Bool Arith Lia.
 From RecordUpdate Require Import RecordUpdate.
-From JV Require Import Bytes Msg SrvModel SrvLemmas SrvBasics SrvC10 SrvC08 SrvC08b SrvC08c SrvC08q SrvC08r SrvC08s SrvC08u SrvC08y.
+From JV Require Import Bytes Msg SrvModel SrvLemmas SrvBasics SrvC10 SrvC08 SrvC08b SrvC08c SrvC08q SrvC08r SrvC08s SrvC08u SrvC08y SrvC08n.
 Import ListNotations.
 
 (** 1. No interleaving makes the process panic: none of the model's crash outcomes (CrNilChannel = deliver
@@ -258,6 +258,39 @@ Theorem c08_notifications_drained : forall c s, reach c s -> quiescent s = true 
   (forall u un, nth_error (units s) u = Some un -> u_st un = UFinished).
 Proof. exact notifications_drained. Qed.
 Print Assumptions c08_notifications_drained.
+
+(* composed, from the stop window on: at any later quiescent point (no Start in between) at which no handler is still
+   running and with a positive concurrency limit, the queue is empty; the valid notifications that were queued at
+   the stop have one task each, in queue order, after the tasks that existed; each such task has been handled by its
+   handler (TDone None, with the handler's entry OStart among the observations of the run; rpc.serverInfo has no
+   user handler) or was skipped because its method is unknown; and every runnable notification task that already
+   existed at the stop is done *)
+Theorem c08_notifications_handled : forall c s l s1 os tr s2 oss, reach c s -> step s l = Some (s1, os) ->
+  running s = true -> running s1 = false -> run s1 tr = Some (s2, oss) -> ~ In LStart tr ->
+  quiescent s2 = true -> (forall k t, nth_error (tasks s2) k = Some t -> t_st t <> TRunning) -> 0 < cf_K c ->
+  inq s2 = [] /\
+  length (tasks s2) = length (tasks s) + length (queue_notes (inq s)) /\
+  (forall j m, nth_error (queue_notes (inq s)) j = Some m ->
+     exists t, nth_error (tasks s2) (length (tasks s) + j) = Some t /\ note_handled s (concat (os :: oss)) m t) /\
+  (forall k t, nth_error (tasks s) k = Some t -> runnable t = true -> is_note t = true ->
+     exists t', nth_error (tasks s2) k = Some t' /\ t_st t' = TDone None /\ t_params t' = t_params t).
+Proof. exact notifications_handled. Qed.
+Print Assumptions c08_notifications_handled.
+
+Theorem c08_note_handled_spec : forall s obs m t, note_handled s obs m t <->
+  t_method t = j_method m /\ t_params t = j_params m /\ is_note t = true /\ t_cancelled t = false /\
+  ((assign_method s (j_method m) = None /\ t_st t = TSkip /\ t_pre t = Some err_not_found) \/
+   (assign_method s (j_method m) = Some true /\ t_st t = TDone None /\ t_builtin t = true) \/
+   (assign_method s (j_method m) = Some false /\ t_st t = TDone None /\ t_builtin t = false /\
+    In (OStart (j_params m) false) obs)).
+Proof. exact note_handled_spec. Qed.
+Print Assumptions c08_note_handled_spec.
+
+(* a notification task that is done has no result, and was never cancelled *)
+Theorem c08_note_done : forall c s k t b, reachf c s -> nth_error (tasks s) k = Some t -> is_note t = true ->
+  t_st t = TDone b -> b = None.
+Proof. exact (fun c s k t b R => reachf_note_done c s R k t b). Qed.
+Print Assumptions c08_note_done.
 
 (* the status of every task at a quiescent point *)
 Theorem c08_quiescent_tasks : forall c s k t, reach c s -> quiescent s = true -> nth_error (tasks s) k = Some t ->
